@@ -378,6 +378,55 @@ func rulesC08(p *Prog, r *Report) {
 		}
 	}
 
+	// R08.3b the lend position's recorded deposit changes only by what moved in custody
+	for _, fn := range fns {
+		var inAmts, outAmts []string
+		for _, c := range calls(fn) {
+			be := bankEffect(c)
+			if be == nil {
+				continue
+			}
+			switch {
+			case (be.Op == "AccToMod" || be.Op == "ModToMod") && isPoolMod(be.To):
+				inAmts = append(inAmts, p.amountKeys(be.Coins)...)
+			case (be.Op == "ModToAcc" || be.Op == "ModToMod") && isPoolMod(be.From):
+				outAmts = append(outAmts, p.amountKeys(be.Coins)...)
+			}
+		}
+		n := 0
+		for _, b := range fn.Blocks {
+			for _, in := range b.Instrs {
+				st, ok := in.(*ssa.Store)
+				if !ok {
+					continue
+				}
+				base, path := addrBase(st.Addr)
+				if namedTypeName(base.Type()) != "LendAsset" || len(path) == 0 || path[0] != "AmountIn" {
+					continue
+				}
+				op, recv, x, isAS := addSubOf(st.Val)
+				if !isAS {
+					continue
+				}
+				if t, f, _, isR := fieldRead(recv); !(isR && (t == "LendAsset" || t == "Coin") && (f == "AmountIn" || f == "Amount")) {
+					continue
+				}
+				n++
+				r.Instance("R08.3")
+				construct := fmt.Sprintf("%s LendAsset.AmountIn %s #%d", fname(fn), op, n)
+				amts := inAmts
+				if op == "Sub" {
+					amts = outAmts
+				}
+				if allAltsIn(altKeys(p, x), amts) {
+					r.OK("R08.3", construct, "recorded deposit changes by an amount moved in pool custody", p.instrPos(st))
+				} else {
+					r.Fail("R08.3", construct, fmt.Sprintf("the lend position's recorded deposit changes by %v, which is not an amount moved in pool custody %v", keysOf(p, x), uniq(amts)), p.instrPos(st), nil)
+				}
+			}
+		}
+	}
+
 	// R08.4 ------------------------------------------------------------------------
 	listRemovalRule(p, r, "R08.4", map[string]bool{"lend": true}, 3)
 
